@@ -3,4 +3,6 @@ namespace LokiModel.C24.Tables
 def defaultMode : String := "loki"
 def sanFrom : Char := '-'
 def sanTo : Char := '_'
+def keyFrom : Char := '.'
+def keyTo : Char := '_'
 end LokiModel.C24.Tables
